@@ -175,8 +175,24 @@ fn run_packrat(c: &Case, o: &mut String) {
 //   job <sv|lib|pp|svi> <hexsrc>
 //   threads <n> <rounds>
 fn job_result(kind: &str, src: &str, path: &str) -> String {
-    let defs = new_defines();
-    let inc: Vec<PathBuf> = Vec::new();
+    // kind = base[:include dir[:NAME=value]]  -- the arguments of the call are part of the job
+    let mut parts = kind.split(':');
+    let kind = parts.next().unwrap_or("sv");
+    let mut defs = new_defines();
+    let mut inc: Vec<PathBuf> = Vec::new();
+    if let Some(d) = parts.next() {
+        if !d.is_empty() {
+            inc.push(PathBuf::from(d));
+        }
+    }
+    if let Some(nv) = parts.next() {
+        if let Some((n, v)) = nv.split_once('=') {
+            defs.insert(
+                n.to_string(),
+                Some(sv_parser::Define::new(n.to_string(), vec![], Some(sv_parser::DefineText::new(v.to_string(), None)))),
+            );
+        }
+    }
     let r = std::panic::catch_unwind(|| match kind {
         "pp" => match preprocess_str(src, path, &defs, &inc, false, false, 0, 0) {
             Ok((t, d)) => format!("ok {} {}", t.text(), canon_defines(&d, true).join("|")),
